@@ -33,6 +33,16 @@ if os.path.exists(rp):
     for k in sorted(r):
         out.append('| %s | %s | %s |' % (k, r[k]['what'], r[k]['result']))
     out.append('')
+out.append('**Last runs of the checks on the unchanged tree** (from `evidence/*.json` as committed):')
+out.append('')
+out.append('| property | tier | runs | distinct non-trivial | runs/hour | simulated time | enumerated fault points | violations |')
+out.append('|---|---|---|---|---|---|---|---|')
+for f in sorted(glob.glob(V + '/evidence/C*.json')):
+    e = json.load(open(f)); c = e['coverage']
+    en = (c.get('enumeration') or {}).get('points_run', 0)
+    out.append('| %s | %s | %s | %s | %s | %s | %s | %s |' % (e['property_id'], e.get('tier', '?'), c['evaluations'], c['distinct_nontrivial'], c.get('runs_per_hour', '-'),
+               ('%.0f h' % (c['sim_time_s_total'] / 3600.0)) if c.get('sim_time_s_total') else '-', en or '-', e.get('violations', 0)))
+out.append('')
 p = V + '/DESIGN.md'; s = open(p).read()
 a = s.index('<!-- RESULTS-BEGIN'); b = s.index('<!-- RESULTS-END -->')
 a2 = s.index('-->', a) + 3
